@@ -1,6 +1,8 @@
 #!/bin/bash
 # seedprep2.sh <ID>: second seeding round — refresh the worktree to /repo's main, list the earlier seeds' sites so that new ones differ
 id=$1
+start=${2:-4}
+n1=$start; n2=$((start+1)); n3=$((start+2))
 bash /verif/bin/seedprep.sh $id >/dev/null
 git -C /tmp/seed/$id/wt checkout -q --detach main && git -C /tmp/seed/$id/wt clean -fdq
 python3 - "$id" <<'PY'
@@ -13,11 +15,20 @@ for m in sorted(glob.glob('/verif/seeded/%s-m*/meta.json' % i)):
 open('/tmp/seed/%s/PREVIOUS.md' % i, 'w').write("# Changes already written for this property (yours must differ in site AND trigger kind)\n\n" + "\n".join(rows) + "\n")
 PY
 rm -rf /tmp/seed/$id/m[0-9]*
-sed -i 's/`m1`, `m2`, `m3`/`m4`, `m5`, `m6`/; s/\/m<k>\//\/m<k>\/ (k = 4,5,6)/' /tmp/seed/$id/TASK.md
-grep -q PREVIOUS /tmp/seed/$id/TASK.md || cat >> /tmp/seed/$id/TASK.md <<'T'
+cp /tmp/seed/$id/TASK.md /tmp/seed/$id/TASK.md.bak 2>/dev/null; bash /verif/bin/seedprep.sh $id >/dev/null
+python3 - "$id" "$n1" "$n2" "$n3" <<'PY'
+import re,sys
+i,a,b,c=sys.argv[1:5]
+p='/tmp/seed/%s/TASK.md'%i
+s=open(p).read()
+s=s.split("\n## Second round")[0]
+s=re.sub(r"`m\d+`, `m\d+`, `m\d+`", "`m%s`, `m%s`, `m%s`"%(a,b,c), s)
+open(p,'w').write(s)
+PY
+cat >> /tmp/seed/$id/TASK.md <<T
 
 ## Second round
-Earlier authors already wrote the changes listed in PREVIOUS.md. Name yours m4, m5, m6. Each must differ from all of those in code
+Earlier authors already wrote the changes listed in PREVIOUS.md. Name yours m$n1, m$n2, m$n3. Each must differ from all of those in code
 site AND in the kind of trigger. Prefer what is still uncovered: other functions/files among the property's anchors, other clauses of
 the statement, other option settings, error/fault paths, re-entrancy (callbacks calling back into the object), lifecycle edges
 (restart, reuse after close/clear/shutdown), boundary sizes (0, 1, capacity, capacity+1), and pairs of cooperating edits.
